@@ -12,6 +12,8 @@ pub enum Val {
     Bool(bool),
     Char(char),
     Str(String),
+    Hex(u32),
+    Tag(String),
     None,
     Some(Box<Val>),
     /// variant of an enum: ident, named fields (or a single unnamed one)
@@ -33,6 +35,8 @@ impl Val {
             Val::Bool(b) => b.to_string(),
             Val::Char(c) => format!("{:?}", c),
             Val::Str(s) => format!("{:?}", s),
+            Val::Hex(n) => format!("Hex({})", n),
+            Val::Tag(t) => format!("Tag({:?})", t),
             Val::None => "None".into(),
             Val::Some(v) => format!("Some({})", v.render()),
             Val::Variant { ident, named, tuple, unit } => {
@@ -89,6 +93,8 @@ pub fn convert(ty: Ty, text: &str) -> Option<Val> {
         Ty::Bool => Val::Bool(text.parse::<bool>().ok()?),
         Ty::Char => Val::Char(text.parse::<char>().ok()?),
         Ty::Str => Val::Str(text.to_string()),
+        Ty::Hex => Val::Hex(crate::usertypes::parse_hex(text)?),
+        Ty::Tag => Val::Tag(crate::usertypes::parse_tag(text)?.to_string()),
     })
 }
 
@@ -101,6 +107,8 @@ fn default_of(ty: Ty) -> Val {
         Ty::Bool => Val::Bool(false),
         Ty::Char => Val::Char('\0'),
         Ty::Str => Val::Str(String::new()),
+        Ty::Hex => Val::Hex(0),
+        Ty::Tag => Val::Tag(String::new()),
     }
 }
 
